@@ -485,6 +485,87 @@ def primitive_rule(res, fx, rule='PRIMITIVE'):
            message='an unchecked unflattener is used on received data at %s' % ', '.join('%s (%s)' % u for u in sorted(users)[:3]))
 
 
+_NEGOP = {'==': '!=', '!=': '==', '<': '>=', '>=': '<', '>': '<=', '<=': '>'}
+
+
+def _path_facts(f, asg):
+    """canonical relational facts {(lhs key, op, rhs key): (lhs node, rhs node)} that hold along a path given as {cond node id: truth}"""
+    out = {}
+    for (cid, truth) in asg.items():
+        for (l_, op_, r_) in A.rel_forms(f.nodes[cid], truth):
+            out[(A.render_key(l_), op_, A.render_key(r_))] = (l_, r_)
+    return out
+
+
+def _written_in(f, blocks, skip):
+    """render keys of the lvalues assigned (or handed to a call by address / as the object of a non-const call) inside the given blocks, the node `skip` excepted"""
+    keys = set()
+    for n in f.walk():
+        p = P.pos_of(f, n)
+        if p is None or p[0] not in blocks or n is skip or any(a is skip for a in n.ancestors()):
+            continue
+        if n['k'] in ('BinaryOperator', 'CompoundAssignOperator') and n.get('op') in A.ASSIGN_OPS:
+            keys.add(A.render_key(A.strip_casts(n['ch'][0])))
+        elif n['k'] == 'UnaryOperator' and n.get('op') in ('post++', 'pre++', 'post--', 'pre--'):
+            keys.add(A.render_key(A.strip_casts(n['ch'][0])))
+        elif n['k'] == 'UnaryOperator' and n.get('op') == '&':
+            keys.add(A.render_key(A.strip_casts(n['ch'][0])))
+    return keys
+
+
+def stream_end_rule(res, fx, rule='STREAM-END'):
+    """zlib: once inflate() has returned Z_STREAM_END it consumes and produces nothing more, so a loop that waits for more output must not call it again"""
+    res.rule(rule, 'a loop that calls inflate() repeatedly does not go round again after inflate() returned Z_STREAM_END: on every feasible cyclic path from the call back to itself the result was compared '
+                   'and found different from Z_STREAM_END (a path whose branch decisions contradict each other on a quantity that nothing in the loop but inflate() changes is not feasible)', floor=1)
+    n = 0
+    for f in sorted((f for f in fx.funcs.values() if f.full and f.file.startswith('zlib/')), key=lambda f: (f.file, f.line)):
+        loops = C.natural_loops(f)
+        for c in f.walk():
+            if not (c['k'] == 'CallExpr' and (c.get('q') or '').split('::')[-1] == 'inflate'):
+                continue
+            cp = P.pos_of(f, c)
+            if cp is None:
+                continue
+            body = set()
+            for (h, blks) in loops:
+                if cp[0] in blks:
+                    body |= blks
+            if not body:
+                continue                 # a single call: nothing to repeat
+            n += 1
+            holder = None
+            for v in f.walk():
+                if v['k'] == 'VarDecl' and v['ch'] and any(x is c for x in v['ch'][0].walk()):
+                    holder = v
+            paths, complete = C.paths_between(f, cp, cp, avoid_blocks=[b for b in f.blocks if b not in body])
+            written = _written_in(f, body, c)
+            bad = None
+            for asg in paths:
+                facts = _path_facts(f, asg)
+                refuted = False
+                feasible = True
+                for (lk, op, rk), (l_, r_) in facts.items():
+                    if holder is not None and l_['k'] == 'DeclRefExpr' and l_.get('d') == holder['d'] and r_.get('v') is not None:
+                        if (op == '!=' and r_['v'] == 1) or (op == '==' and r_['v'] != 1):
+                            refuted = True
+                    if (lk, _NEGOP.get(op), rk) in facts:
+                        # the same comparison decided both ways on one path: feasible only if something in between can have changed an operand
+                        names = set(A.render_key(x) for x in list(l_.walk()) + list(r_.walk()) if x['k'] in ('DeclRefExpr', 'MemberExpr'))
+                        if not (names & written):
+                            feasible = False
+                if feasible and not refuted:
+                    bad = asg
+                    break
+            ok = complete and bool(paths) and bad is None and holder is not None
+            res.ob(rule, f.where(c), '%s: no further inflate() after Z_STREAM_END' % f.q.split('::')[-1], ok, function=f.q, key='%s|%s' % (rule, f.q),
+                   how='%d cyclic path(s) from the call back to itself; result kept in `%s`' % (len(paths), holder.get('n') if holder else '?'),
+                   message='%s can call inflate() again after it returned Z_STREAM_END%s: the ended stream neither consumes input nor produces output any more, so when the deflated stream ends before the '
+                           'declared number of bytes has been produced (and input is left) the loop spins forever on a 27-byte input'
+                           % (f.q, (' (decisions on the path: %s)' % ', '.join('%s=%s' % (f.nodes[k].text(30), v) for k, v in list(bad.items())[:6])) if bad else ''))
+    if n < 1:
+        raise AnalysisBroken('%s: no inflate() call inside a loop found under zlib/' % rule)
+
+
 def run(res, tier):
     fx = common.load_all(res, tier, with_c=True)
     cg = CallGraph(fx)
@@ -499,6 +580,7 @@ def run(res, tier):
     # "delivered in any segmentation": a read may return fewer bytes than asked for, none included (the rule lives with the short-transfer discipline in C03)
     from .C03 import count_consulted_rule
     count_consulted_rule(res, fx)
+    stream_end_rule(res, fx)
     entries = []
     missing = []
     for q in PARSE_ENTRIES:
